@@ -13,15 +13,15 @@ var ErrCrashed = errors.New("simulated process is dead")
 
 // DiskState is the per-run state of the simulated disk.
 type DiskState struct {
-	Mtime    map[string]time.Time
-	TempSeq  int
-	Audit    []AuditRec
-	AuditOn  bool
-	Ops      int
-	FaultFn  func(n *Node, kind, path string) error // error injection hook (harness)
-	OpLog    []string
-	OpLogOn  bool
-	TornOK   bool
+	Mtime   map[string]time.Time
+	TempSeq int
+	Audit   []AuditRec
+	AuditOn bool
+	Ops     int
+	FaultFn func(n *Node, kind, path string) error // error injection hook (harness)
+	OpLog   []string
+	OpLogOn bool
+	TornOK  bool
 }
 
 // AuditRec is one path reaching the disk shim.
